@@ -269,6 +269,40 @@ class Case:
         self.progs = {}       # word id -> AST
         self.stdin = b""
         self.note = ""
+        self.expand = {}      # placeholder bytes -> the long text it stands for in the REAL run (see long_line)
+
+    def long_line(self, r):
+        """A line around the sizes of the readers' buffers (bufio default 4096, 16 KiB windows).  The specification sees a short
+        placeholder without line terminators; the real command gets the expansion, and every occurrence of the expansion in what the
+        command printed is mapped back before validation.  Splitting into lines commutes with this substitution, so the model's
+        verdict carries over - and a reader that cuts or drops the long line leaves text that no longer maps back."""
+        k = len(self.expand) + 1
+        ph = ("LONGLINE%dQ" % k).encode()
+        unit = r.choice(["x", "ab", "\u00e9"]).encode("utf-8")
+        tail = b"%d." % k
+        size = r.choice([4093, 4094, 4095, 4096, 4097, 5000, 8191, 8192, 9000, 16383, 16384, 16385, 40000])          # total bytes of the line, around the buffer sizes
+        self.expand[ph] = unit * ((size - len(tail)) // len(unit)) + tail
+        return ph
+
+    def _real(self, b):
+        for ph, full in self.expand.items():
+            b = b.replace(ph, full)
+        return b
+
+    def _abstract_value(self, v):
+        if isinstance(v, dict):
+            if v.get("t") == "str" and len(v.get("s", [])) > 1000:
+                try:
+                    b = "".join(chr(c) for c in v["s"]).encode("utf-8")
+                    for ph, full in self.expand.items():
+                        b = b.replace(full, ph)
+                    return {"t": "str", "s": [ord(c) for c in b.decode("utf-8")]}
+                except Exception:
+                    return v
+            return {k: self._abstract_value(x) for k, x in v.items()}
+        if isinstance(v, list):
+            return [self._abstract_value(x) for x in v]
+        return v
 
     def wid(self, text):
         if isinstance(text, str):
@@ -330,17 +364,18 @@ class Case:
 
     def exec_record(self, cid):
         return {"id": cid, "args": [list(a) for a in self.args()],
-                "files": {self.words[i].decode(): list(c) for i, c in self.fs.items()}, "stdin": list(self.stdin)}
+                "files": {self.words[i].decode(): list(self._real(c)) for i, c in self.fs.items()}, "stdin": list(self._real(self.stdin))}
 
     def trace_record(self, cid, res):
         d = lambda m, f: dict({"_": []}, **{k: f(v) for k, v in m.items()})
         return {"id": cid, "fam": self.fam, "argv": self.argv, "words": d(self.words, list), "fs": d(self.fs, list),
                 "progs": dict({"_": {"op": "dot"}}, **{k: strip(v) for k, v in self.progs.items()}), "stdin": list(self.stdin),
-                "out": res["out"], "outbad": res["outbad"], "nerr": res["nerr"], "exit": res["exit"], "crash": res["crash"]}
+                "out": self._abstract_value(res["out"]) if self.expand else res["out"], "outbad": res["outbad"], "nerr": res["nerr"], "exit": res["exit"], "crash": res["crash"]}
 
     def to_json(self):
         return {"fam": self.fam, "argv": self.argv, "words": {k: list(v) for k, v in self.words.items()}, "ids": None,
-                "fs": {k: list(v) for k, v in self.fs.items()}, "progs": self.progs, "stdin": list(self.stdin), "note": self.note}
+                "fs": {k: list(v) for k, v in self.fs.items()}, "progs": self.progs, "stdin": list(self.stdin), "note": self.note,
+                "expand": {k.decode(): list(v) for k, v in self.expand.items()}}
 
     @staticmethod
     def from_json(j):
@@ -352,6 +387,7 @@ class Case:
         c.progs = j["progs"]
         c.stdin = bytes(j["stdin"])
         c.note = j.get("note", "")
+        c.expand = {k.encode(): bytes(v) for k, v in (j.get("expand") or {}).items()}
         return c
 
     def shell(self):
@@ -473,8 +509,17 @@ def case_raw(r):
     c = Case("raw")
     texts = [rand_rawtext(r) for _ in range(r.choice([1, 1, 2, 3]))]
     modes = ["R"] + [m for m in ("s", "n") if r.random() < 0.4]
+    longline = r.random() < 0.25
+    if longline:
+        # queries that move lines around without looking inside them (the placeholder abstraction is exact for these)
+        k = r.randrange(len(texts))
+        parts = texts[k].split(b"\n")
+        parts.insert(r.randrange(len(parts) + 1), c.long_line(r) + (b"\r" if r.random() < 0.2 else b""))
+        if r.random() < 0.3:
+            parts.insert(r.randrange(len(parts) + 1), c.long_line(r))
+        texts[k] = b"\n".join(parts)
     files = layout(r, c, texts)
-    q = r.choice([DOT, DOT, collect(INPUTS), INPUTS, comma(DOT, INPUT), rand_query(r, 2)])
+    q = r.choice([DOT, DOT, collect(INPUTS), INPUTS, comma(DOT, INPUT)] + ([] if longline else [rand_query(r, 2)]))
     place(r, c, modes, q, files)
     return c
 
